@@ -80,3 +80,9 @@ Proof.
   intros msghdr ck f H Hck. unfold frag_capacity, enc_frag_payload, c_MaxFramePayloadSize, c_FrameHeaderSize, c_MaxFrameSize in *.
   rewrite !zlen_app, enc_chunks_size, Hck. unfold zlen at 1 3. cbn [length]. lia.
 Qed.
+
+(* the state predicates of the hand models are the ones generated from the Go source *)
+Lemma is_writing_generated s : is_writing s = isWritingArgument s.
+Proof. reflexivity. Qed.
+Lemma is_reading_generated s : is_reading s = isReadingArgument s.
+Proof. reflexivity. Qed.
